@@ -1,1 +1,243 @@
+(* C02 -- property theorems only.  Each is closed by [exact <lemma>] (or a two-line combination) and
+   followed by Print Assumptions.  [O] is an arbitrary property package + solver; [contracts O] is
+   what is assumed about it (homogeneity of H and S in mol, H(0) = 0, and: a returned temperature
+   satisfies the equation that was to be solved). *)
 From V Require Import Common.NumFacts C02.Model C02.Proofs.
+Open Scope Q_scope.
+
+(* ---------------------------------------------------------------- mixing *)
+(* at least one non-empty inlet: H of the receiver afterwards = sum of H of the non-empty inlets as they
+   were before the call (the receiver may be among them) + Q + heat of the Heat/Power objects *)
+Theorem C02_mix_energy : forall O st r others Q0 st' ins s',
+  contracts O -> Forall wfs st ->
+  mix_from O st r others Q0 = Ok st' ->
+  streams_of st others <> [] ->
+  sget_all st (streams_of st others) = Ok ins ->
+  sget st' r = Ok s' ->
+  ~ total s' == 0 ->
+  getH O s' == qsum (map (getH O) ins) + (Q0 + heats others).
+Proof. exact mix_energy_lemma. Qed.
+Print Assumptions C02_mix_energy.
+
+(* ... and its pressure is the lowest pressure among the non-empty inlets *)
+Theorem C02_mix_pressure : forall O st r others Q0 st' ins s',
+  contracts O -> Forall wfs st ->
+  mix_from O st r others Q0 = Ok st' ->
+  streams_of st others <> [] ->
+  sget_all st (streams_of st others) = Ok ins ->
+  sget st' r = Ok s' ->
+  (forall s, In s ins -> sP s' <= sP s) /\ exists s, In s ins /\ sP s = sP s'.
+Proof. exact mix_pressure_lemma. Qed.
+Print Assumptions C02_mix_pressure.
+
+(* nothing but the receiver changes *)
+Theorem C02_mix_frame : forall O st r others Q0 st',
+  mix_from O st r others Q0 = Ok st' ->
+  length st' = length st /\ forall k, k <> r -> nth_error st' k = nth_error st k.
+Proof. exact mix_frame_lemma. Qed.
+Print Assumptions C02_mix_frame.
+
+(* ---------------------------------------------------------------- separating *)
+Theorem C02_sep_energy : forall O st r o st' sr so s',
+  contracts O ->
+  separate_out O st r o = Ok st' -> r <> o ->
+  sget st r = Ok sr -> sget st o = Ok so -> sget st' r = Ok s' ->
+  ~ total s' == 0 ->
+  getH O s' == getH O sr - getH O so.
+Proof. exact sep_energy_lemma. Qed.
+Print Assumptions C02_sep_energy.
+
+(* separating a stream from itself leaves H(self) - H(self) = 0 *)
+Theorem C02_sep_self : forall O st r st' s',
+  Forall wfs st -> separate_out O st r r = Ok st' -> sget st' r = Ok s' -> getH O s' == 0.
+Proof. exact sep_self_lemma. Qed.
+Print Assumptions C02_sep_self.
+
+Theorem C02_sep_frame : forall O st r o st',
+  separate_out O st r o = Ok st' ->
+  length st' = length st /\ forall k, k <> r -> nth_error st' k = nth_error st k.
+Proof. exact sep_frame_lemma. Qed.
+Print Assumptions C02_sep_frame.
+
+(* ---------------------------------------------------------------- assigning H, S, h, Hnet (Stream and MultiStream,
+   including the branch that flips the phase after a failed solve) *)
+Theorem C02_setH_roundtrip : forall O s h s',
+  contracts O -> setH O s h = (s', None) -> ~ total s == 0 ->
+  getH O s' == h /\ same_but_T_phase s s'.
+Proof.
+  intros O s h s' C H Hn. pose proof (set_with_shape _ _ _ _ _ _ H) as Sh. split; [|exact Sh].
+  apply (set_with_roundtrip (Hmix O) (solveH O) s h s' (cH_homog _ C) (cH_spec _ C) H).
+  now rewrite (same_total _ _ Sh).
+Qed.
+Print Assumptions C02_setH_roundtrip.
+
+Theorem C02_setS_roundtrip : forall O s x s',
+  contracts O -> setS O s x = (s', None) -> ~ total s == 0 ->
+  getS O s' == x /\ same_but_T_phase s s'.
+Proof.
+  intros O s x s' C H Hn. pose proof (set_with_shape _ _ _ _ _ _ H) as Sh. split; [|exact Sh].
+  apply (set_with_roundtrip (Smix O) (solveS O) s x s' (cS_homog _ C) (cS_spec _ C) H).
+  now rewrite (same_total _ _ Sh).
+Qed.
+Print Assumptions C02_setS_roundtrip.
+
+Theorem C02_seth_roundtrip : forall O s h s',
+  contracts O -> seth O s h = (s', None) -> ~ total s == 0 ->
+  exists v, geth O s' = Some v /\ v == h.
+Proof.
+  intros O s h s' C H Hn. destruct (seth_roundtrip O s h s' (cH_spec _ C) H Hn) as [G V].
+  eexists. split; [exact G|exact V].
+Qed.
+Print Assumptions C02_seth_roundtrip.
+
+Theorem C02_setHnet_roundtrip : forall O s x s',
+  contracts O -> setHnet O s x = (s', None) -> ~ total s' == 0 -> getHnet O s' == x.
+Proof. exact setHnet_roundtrip. Qed.
+Print Assumptions C02_setHnet_roundtrip.
+
+(* a setter that does not succeed leaves flows and pressure alone as well *)
+Theorem C02_set_frame : forall O s x s' e,
+  (setH O s x = (s', e) \/ setS O s x = (s', e) \/ setHnet O s x = (s', e)) -> same_but_T_phase s s'.
+Proof.
+  intros O s x s' e [H|[H|H]]; exact (set_with_shape _ _ _ _ _ _ H).
+Qed.
+Print Assumptions C02_set_frame.
+
+(* assigning the value the stream already has changes nothing but (up to ==) T, and T stays *)
+Theorem C02_setH_idem : forall O s,
+  contracts O -> solve_fix (Hmix O) (solveH O) -> ~ total s == 0 ->
+  exists T', setH O s (getH O s) = (set_T s T', None) /\ T' == sT s.
+Proof. intros O s C F. exact (set_with_idem (Hmix O) (solveH O) s (cH_homog _ C) F). Qed.
+Print Assumptions C02_setH_idem.
+
+Theorem C02_setS_idem : forall O s,
+  contracts O -> solve_fix (Smix O) (solveS O) -> ~ total s == 0 ->
+  exists T', setS O s (getS O s) = (set_T s T', None) /\ T' == sT s.
+Proof. intros O s C F. exact (set_with_idem (Smix O) (solveS O) s (cS_homog _ C) F). Qed.
+Print Assumptions C02_setS_idem.
+
+(* when the solver always answers, the assignment succeeds *)
+Theorem C02_setH_total : forall O s h,
+  (forall m x Tg P, exists T', solveH O m x Tg P = Ok T') -> exists s', setH O s h = (s', None).
+Proof.
+  intros O s h Tot. unfold setH, set_with, solve_into.
+  destruct (qzerob h && isempty s); [eexists; reflexivity|].
+  destruct (Tot (pm s) h (sT s) (sP s)) as [T' E]. rewrite E.
+  destruct (multi s); eexists; reflexivity.
+Qed.
+Print Assumptions C02_setH_total.
+
+(* ---------------------------------------------------------------- the in-repo part of the temperature solver *)
+(* a temperature that already satisfies H = H(T) is a fixed point of iter_T_at_HP *)
+Theorem C02_iter_fixed : forall T H Hm Cnm c T' c',
+  iter_T_at_HP T H Hm Cnm c = Ok (T', c') -> H == Hm T -> T' == T.
+Proof. exact iter_fixed_lemma. Qed.
+Print Assumptions C02_iter_fixed.
+
+(* enthalpy affine in T with the slope the step divides by: one step lands on the root *)
+Theorem C02_iter_affine : forall T H Hm Cnm c T' c' a b,
+  iter_T_at_HP T H Hm Cnm c = Ok (T', c') ->
+  (forall t, Hm t == a * t + b) ->
+  (forall cn, cn_used Cnm T c = Some cn -> cn == a) ->
+  Hm T' == H.
+Proof. exact iter_affine_lemma. Qed.
+Print Assumptions C02_iter_affine.
+
+Theorem C02_iter_S_fixed : forall expf T S Sm Cnm c T' c',
+  (forall x, x == 0 -> expf x == 1) ->
+  iter_T_at_SP expf T S Sm Cnm c = Ok (T', c') -> S == Sm T -> T' == T.
+Proof. exact iter_S_fixed_lemma. Qed.
+Print Assumptions C02_iter_S_fixed.
+
+(* Mixture.solve_T_at_HP: whatever flexsolve.aitken returned, the wrapper takes one Newton step from it; in the
+   affine case that step is the root, and it is what is returned unless the secant polish is entered *)
+Theorem C02_solve_wrapper : forall aitken secant tol H Tguess Hm Cnm T a b Tg c,
+  solve_T_at_HP aitken secant tol H Tguess Hm Cnm = Ok T ->
+  aitken Tguess = Ok (Tg, c) ->
+  (forall t, Hm t == a * t + b) ->
+  (forall cn, cn_used Cnm Tg c = Some cn -> cn == a) ->
+  exists T1, T1 == Tg + (H - Hm Tg) / a /\ Hm T1 == H /\
+     (qltb tol (Qabs (T1 - Tg)) = false -> T = T1) /\
+     (qltb tol (Qabs (T1 - Tg)) = true -> secant Tg T1 = Ok T).
+Proof. exact solve_wrapper_lemma. Qed.
+Print Assumptions C02_solve_wrapper.
+
+(* ---------------------------------------------------------------- the contracts are satisfiable: the linear stub
+   (H = sum n Cn (T - Tref), solver = one step of iter_T_at_HP) meets all of them *)
+Theorem C02_stub_contracts : forall cn hf Tref, contracts (lin_oracles cn hf Tref).
+Proof. exact lin_contracts. Qed.
+Print Assumptions C02_stub_contracts.
+
+Theorem C02_stub_solve_fix : forall cn Tref m x T P,
+  ~ lin_Cn cn m == 0 -> xsum (lin_H cn Tref) m T P == x ->
+  exists T', lin_solve cn Tref m x T P = Ok T' /\ T' == T.
+Proof. exact lin_solve_fix. Qed.
+Print Assumptions C02_stub_solve_fix.
+
+(* ---------------------------------------------------------------- non-vacuity *)
+Definition exO := lin_oracles [64; 32; 128] [-1024; -512; 256] (5963 # 20).
+Definition exA := mkS false [(4%nat, [2; 0; 0])] 350 200000.
+Definition exB := mkS false [(3%nat, [0; 4; 0])] 320 101325.
+Definition exM := mkS true [(3%nat, [0; 1; 0]); (4%nat, [1; 0; 1])] 310 150000.
+Definition exE := mkS false [(4%nat, [0; 0; 0])] 300 50000.
+Definition exSt : store := [exA; exB; exM; exE].
+
+Lemma exSt_wfs : Forall wfs exSt.
+Proof.
+  repeat constructor; simpl; try lia; intros F; simpl in F; intuition discriminate.
+Qed.
+
+(* receiver among three non-empty inlets, an empty inlet, a heat object and Q <> 0 *)
+Example C02_mix_nonvacuous :
+  exists st' ins s',
+    mix_from exO exSt 0 [IStream 0; IStream 3; IStream 1; IHeat 512; IStream 2] 1024 = Ok st' /\
+    streams_of exSt [IStream 0; IStream 3; IStream 1; IHeat 512; IStream 2] <> [] /\
+    sget_all exSt (streams_of exSt [IStream 0; IStream 3; IStream 1; IHeat 512; IStream 2]) = Ok ins /\
+    sget st' 0 = Ok s' /\ ~ total s' == 0 /\ Forall wfs exSt /\ contracts exO /\
+    getH exO s' == 6636 + (4 # 5) + (2796 + (4 # 5)) + (7827 + (2 # 5)) + 1536 /\ sP s' == 101325.
+Proof.
+  eexists; eexists; eexists.
+  split; [vm_compute; reflexivity|]. split; [vm_compute; discriminate|].
+  split; [vm_compute; reflexivity|]. split; [vm_compute; reflexivity|].
+  split; [vm_compute; discriminate|]. split; [exact exSt_wfs|]. split; [apply lin_contracts|].
+  split; vm_compute; reflexivity.
+Qed.
+
+(* exactly one non-empty inlet and Q <> 0 *)
+Example C02_mix_one_nonvacuous :
+  exists st' s',
+    mix_from exO exSt 3 [IStream 3; IStream 0] 1024 = Ok st' /\ sget st' 3 = Ok s' /\
+    ~ total s' == 0 /\ getH exO s' == getH exO exA + 1024.
+Proof.
+  eexists; eexists. split; [vm_compute; reflexivity|]. split; [vm_compute; reflexivity|].
+  split; [vm_compute; discriminate|]. vm_compute; reflexivity.
+Qed.
+
+Example C02_sep_nonvacuous :
+  exists st' s', separate_out exO exSt 2 0 = Ok st' /\ sget st' 2 = Ok s' /\ ~ total s' == 0 /\
+                 getH exO s' == getH exO exM - getH exO exA.
+Proof.
+  eexists; eexists. split; [vm_compute; reflexivity|]. split; [vm_compute; reflexivity|].
+  split; [vm_compute; discriminate|]. vm_compute; reflexivity.
+Qed.
+
+Example C02_setH_nonvacuous :
+  exists s', setH exO exM 8192 = (s', None) /\ ~ total exM == 0 /\ getH exO s' == 8192 /\
+             sT s' == (5963 # 20) + 8192 / 224.
+Proof.
+  eexists. split; [vm_compute; reflexivity|]. split; [vm_compute; discriminate|].
+  split; vm_compute; reflexivity.
+Qed.
+
+(* the phase-flip branch: the first solve fails, the flipped phase is solved *)
+Definition exOs := mkO (lin_H [64; 32; 128] (5963 # 20)) (fun _ _ _ _ => 0)
+                       (fun m x Tg P => match m with [(4%nat, _)] => Err ERuntime | _ => lin_solve [64; 32; 128] (5963 # 20) m x Tg P end)
+                       (fun _ _ _ _ => Err EOther) [].
+Example C02_setH_flip_nonvacuous :
+  exists s', setH exOs exA 8192 = (s', None) /\ phase1 s' = 3%nat /\ getH exOs s' == 8192.
+Proof. eexists. split; [vm_compute; reflexivity|]. split; vm_compute; reflexivity. Qed.
+
+Example C02_iter_nonvacuous :
+  exists T' c', iter_T_at_HP 350 8192 (fun t => 224 * t - 224 * (5963 # 20)) (fun _ => 224) (O, None) = Ok (T', c') /\
+                224 * T' - 224 * (5963 # 20) == 8192.
+Proof. eexists; eexists. split; vm_compute; reflexivity. Qed.
